@@ -389,6 +389,13 @@ fn oracle(scn: &PubSub, g: &World, out: &Outcome, viol: &mut Vec<RViol>) {
             });
         }
     }
+    if out.done.is_some() && out.closed_at.is_none() {
+        viol.push(RViol {
+            prop,
+            clause: "pubsub:finished-while-open".into(),
+            msg: "the router future completed although the registration channel is still open: the server keeps handing later registrations of this topic to a router that no longer exists".into(),
+        });
+    }
     if scn.close && out.closed_at.is_some() && out.done.is_none() {
         viol.push(RViol { prop: "C16", clause: "pubsub:shutdown-hang".into(), msg: "registration channel closed and every sink able to accept data, but the router never finished".into() });
     }
